@@ -68,6 +68,10 @@ pub struct Scenario {
     pub ops: Vec<Op>,
     #[serde(default)]
     pub freezer: bool,
+    /// the freezer's per-pass limit (30 000 blocks in a shipped node) as a knob, so that short chains
+    /// reach it: a pass moves at most this many blocks, the next pass goes on where it stopped
+    #[serde(default, skip_serializing_if = "Option::is_none")]
+    pub freeze_limit: Option<u64>,
     /// store read-cache sizes: [headers, cell_data, proposals, tx_hashes, uncles, extensions];
     /// None = the shipped defaults
     #[serde(default)]
@@ -410,6 +414,7 @@ pub fn generate_c07(seed: u64) -> Scenario {
         tree,
         ops,
         freezer: false,
+        freeze_limit: None,
         store_caches: None,
         verify_cache_cold: false,
         assume_valid_first: 0,
@@ -993,6 +998,11 @@ pub fn generate(seed: u64, prop: &str) -> Scenario {
         tree,
         ops,
         freezer: prop == "C10",
+        freeze_limit: {
+            // a stream of its own: the other draws of a seed stay as they were
+            let mut rf = Rng::new(seed ^ 0xC10_11A1);
+            if prop == "C10" && rf.chance(1, 2) { Some(*rf.pick(&[1u64, 1, 2, 3, 5, 8])) } else { None }
+        },
         store_caches: match r.below(4) {
             0 => Some([0; 6]),
             1 => {
